@@ -80,6 +80,10 @@ CLAIMED = {
             "bounded-exhaustive enumeration of (module, pattern abstracted from the module's own code, region, goal) against a reference AST matcher/transformer",
             "For 4 modules, every distinct expression and statement run is turned into patterns by abstracting every subset of <=2 sub-expressions into wildcards (shared wildcards for equal sub-trees); SimilarFinder.get_matches over the whole module and over every statement span must report exactly the reference matcher's instances with equal bindings, and restructure.replace / Restructure with 4 goals must parse to the reference AST transformation (goal == pattern leaves the tree unchanged).",
             "reference matcher: structural ast equality ignoring expression context, written independently (60 lines); matches identified by interpreter positions", "3/C19"),
+    "C20": ("exploration",
+            "bounded-exhaustive enumeration of (module, every character offset, line-truncation variant, settings) with the symtable-validated reference binder as the oracle for visibility and definition lines",
+            "For 284 modules of 8 scoping schemas, code_assist is called at every character offset on the intact module and on the module with the rest of the current line deleted, for maxfixes {1,3} x later_locals {T,F}; no exception other than RopeError may escape, every proposal extends the typed prefix, and on judged positions the offered module identifiers equal the names visible there per the binder (two-sided on the intact module); get_definition_location at every identifier token must give a binding line of the reference binding.",
+            "binder validated against symtable per module; positions inside strings, comments, def/class/import/global lines and comprehension/lambda interiors are not judged for completeness", "3/C20"),
 }
 
 PENDING_REASON = "check not built yet in this session (see DESIGN.md section 8 build order); nothing is claimed for it"
